@@ -158,4 +158,8 @@ int stream_read_lp(std::istream& in, bool rational, BareLP& out);
 double soplex_rational_to_double(const Q& q);
 
 void set_thread_infinity_default();
+// ThreadSanitizer builds: a task thread ignores the memory accesses of harness code and switches detection on only
+// while it is inside a facade call (so that reports are about the library, never about the serialised harness)
+void tsan_task_begin();
+void tsan_task_end();
 }  // namespace sut
